@@ -46,13 +46,71 @@ def run(prog, chk):
     once_and_rng(prog, chk)
     single_precision_only(prog, chk)
     one_evaluation_per_element(prog, chk)
+    nesting_counter_balanced(prog, chk)
+    list_grammar(prog, chk)
     from props import C15
     C15.reuse_overrides_evaluated(prog, chk)  # the overrides a <reuse> hands to its target are the evaluated ones (not evaluated again)
     from props import geomalg
     n = geomalg.check_sites(prog, chk, "C14")
     chk.floor("A17.site-algebra", n, 36, "built-in function compared with the reference algebra")
     from props import strops
-    strops.check_for(prog, chk, "C14")  # A14.str-ops: how this property's strings are cut up is a reviewed, frozen inventory
+    strops.check_for(prog, chk, "C14")
+    strops.check_evaluation_sites(prog, chk)  # "exactly once": the places that evaluate a string are the reviewed ones  # A14.str-ops: how this property's strings are cut up is a reviewed, frozen inventory
+
+
+def nesting_counter_balanced(prog, chk):
+    """the nesting budget of an expression is a matter of *nesting*: primary() counts itself in on entry and out on
+    every exit that yields a value (the only exit that keeps the count is the one that reports the nesting error) - a
+    leaked count per literal turns the nesting limit into a limit on the length of an expression"""
+    b = prog.body(EXPR + "primary")
+    chk.touch(b)
+    incs, decs = set(), set()
+    for x, i, st in b.all_stmts():
+        rv = st.get("rv") or {}
+        if rv.get("k") != "binop" or rv.get("op") not in ("AddWithOverflow", "Add", "SubWithOverflow", "Sub"):
+            continue
+        o = R.origin(b, rv["a"], carriers={})
+        if o[0] == "field" and str(o[1][1][-1]) == ".depth" and (op_const(rv.get("b")) or {}).get("int") == 1:
+            (incs if rv["op"].startswith("Add") else decs).add(x)
+    if not incs or not decs:
+        chk.anchor_missing("A5.expr-depth", f"primary(): depth increment ({len(incs)}) / decrement ({len(decs)}) not found")
+        return
+    errs = {x for x, i, st in b.all_stmts() if (st.get("rv") or {}).get("k") == "aggr" and st["rv"].get("adt") == "svgdx::errors::SvgdxError"}
+    rets = [x for x in b.reachable if b.term(x)["k"] == "ret"]
+    leak = [x for x in rets if x in b.reach(sorted(incs), avoid=decs | errs)]
+    chk.ob(not leak, "A5.expr-depth", "primary", b.where(sorted(incs)[0]), "every exit of primary() that yields a value has given its nesting level back", "primary() can return a value without decrementing the nesting depth it incremented on entry: every such primary permanently uses up one of the 100 nesting levels, so a long flat expression (a sum of 120 numbers, a 110-item list) is rejected as too deeply nested")
+
+
+def list_grammar(prog, chk):
+    """an expression list is `expr (, expr)*`: after every comma another expression is parsed (so `abs(5,)` fails in
+    expr()), and the only list without an expression is the empty argument list `()`.  expr_list() is executed in the
+    A17 evaluator over scripted token streams; the number of expr() calls it makes is compared with commas + 1."""
+    from sa import algebra as A
+
+    def run(prev, toks):
+        vals = [("some", ("variant", t)) for t in toks] + [("none",)]
+        script = {"peek": {"tick": "advance", "values": vals}, "prev": {"tick": None, "values": [("some", ("variant", prev)) if prev else ("none",)]}}
+        ev = A.Evaluator(prog, script=script, numbered=("expr",), unroll=8, transparent=("flatten", "into", "one_number", "cloned"))
+        try:
+            ev.summary(EXPR + "expr_list")
+        except Exception as e:  # noqa: BLE001
+            return None, repr(e)
+        return ev.counters.get("expr", 0), ""
+
+    f = _fn(prog, "expr_list")
+    chk.touch(f)
+    cases = [
+        ("OpenParen", ["CloseParen"], 0, "`()` is the empty list"),
+        ("Number", ["CloseParen"], 1, "a single expression"),
+        ("Number", ["Comma", "CloseParen"], 2, "after a comma an expression is parsed even if `)` follows (a trailing comma is an error raised by expr())"),
+        ("Number", ["Comma", "Comma", "CloseParen"], 3, "three items"),
+        ("OpenParen", ["Comma", "CloseParen"], 2, "`(x,)` (the stream lists what expr_list itself sees between expressions): the item after the comma is parsed"),
+        ("Comma", [], 1, "end of input after one expression"),
+    ]
+    for prev, toks, want, what in cases:
+        got, why = run(prev, toks)
+        chk.ob(got == want, "A17.list-grammar", f"expr_list:{prev}|{'-'.join(toks) or 'end'}", f.where(), f"after `{prev}` with next tokens {toks or ['<end>']}: expr() is called {want} time(s) ({what})", f"expr_list() after `{prev}` with next tokens {toks or ['<end>']} calls expr() {got} time(s) {why}- expected {want} ({what}): malformed lists such as `abs(5,)` or `(1,2,)` are accepted")
+    chk.floor("A17.list-grammar", len(cases), 6, "token stream for expr_list")
 
 
 def one_evaluation_per_element(prog, chk):
